@@ -212,7 +212,10 @@ def _mimic_async[**Args, Result](
         except AttributeError:
             pass
     try:
-        within.__dict__.update(function.__dict__)
+        # never override what the wrapper already defines on its own, when wrapping an object
+        # based wrapper its attributes (i.e. wrapped function or configuration) would replace ours
+        for key, value in function.__dict__.items():
+            within.__dict__.setdefault(key, value)
 
     except AttributeError:
         pass
